@@ -109,14 +109,16 @@ class Block:
         return '%s%s for %s' % (trait_name, targs, self_ty)
 
 
-def trait_def(name, generics='', unsafe=False, with_fn=True, where='', with_type=False):
+def trait_def(name, generics='', unsafe=False, with_fn=True, where='', with_type=False, by_value=False):
     return ('pub %strait %s%s' + (' ' + where if where else '') + ' {\n    const NAME: &\'static str;\n    const ID: u8 = 0;\n'
-            + ('    type Out;\n' if with_type else '') +
+            + ('    type Out;\n' if with_type else '') + ('    fn k(self) -> u8;\n' if by_value else '') +
             '    fn f() -> &\'static str { "default" }\n}\n') % ('unsafe ' if unsafe else '', name, generics)
 
 
-def block_text(b, trait_name, with_type=False):
+def block_text(b, trait_name, with_type=False, by_value=False):
     items = ['    const NAME: &\'static str = "%s";' % b.tag]
+    if by_value:
+        items.append('    fn k(self) -> u8 { %d }' % (int(b.tag[1:]) + 1))
     if with_type:
         items.append('    type Out = [u8; %d];' % (int(b.tag[1:]) + 1))
     if 'ID' in b.overrides:
@@ -295,8 +297,9 @@ class Case:
         us = getattr(self, 'unsafe_trait', False)
         for b in blocks:
             b.unsafe = us
-        body = (trait_def(self.trait_name, self.trait_generics, where=getattr(self, 'trait_where', ''), with_type=wt, unsafe=us) if self.trait_name else '')
-        body += ''.join(block_text(b, self.trait_name, with_type=wt) for b in blocks)
+        bv = getattr(self, 'by_value', False)
+        body = (trait_def(self.trait_name, self.trait_generics, where=getattr(self, 'trait_where', ''), with_type=wt, unsafe=us, by_value=bv) if self.trait_name else '')
+        body += ''.join(block_text(b, self.trait_name, with_type=wt, by_value=bv) for b in blocks)
         return body
 
     def bound_of_probe(self, p):
@@ -663,6 +666,32 @@ def gen_case(rng, kind, idx=None):
             elif not ty.startswith(wname + '<') and rng.random() < 0.5:
                 world[(ty, trt)] = {'G': inner[2]['G']}
         return Case(kind, 'K', '', blocks, probes, world)
+    elif kind == 'nested_relaxed_inner':
+        # a nested member relaxes a parameter of its own that the general header cannot name
+        # (K for T  >  K for Box<U>, U: ?Sized); the trait has a by-value method, so the general
+        # family must stay Sized
+        gen_h, spec_h, wrapfmt = pk.choice([('T', 'box', 'Box<{T0}>'), ('pair', 'pairbox', None), ('T', 'ref', None)])
+        tr = pk.choice(['D', 'D2'])
+        g = rng.sample(GROUPS, 3)
+        pl = lambda: rng.choice(['inline', 'where'])
+        sf, used = HEADERS[gen_h]
+        general = [Block(mk_slots(rng, used), None, sf, [('{T0}', tr, {'G': g[i]}, pl())], 'b%d' % i) for i in range(pk.choice([1, 2]))]
+        ssf, sused = HEADERS[spec_h]
+        inner = 'T1' if spec_h == 'pairbox' else 'T0'
+        skey = {'box': 'Box<{T0}>', 'pairbox': '{T0}', 'ref': '&{L0} {T0}'}[spec_h]
+        slots = mk_slots(rng, sused)
+        order = [x for x in slots if x[0] == 'L'] + [x for x in slots if x[0] != 'L']
+        nb = Block({x: slots[x] for x in order}, None, ssf, [(skey, tr, {'G': g[2]}, 'where')], 'bn', relaxed={inner: pl()})
+        blocks = general + [nb]
+        headers = [HEADERS[gen_h]] * len(general) + [HEADERS[spec_h]]
+        if pk.choice([False, True]):
+            blocks.reverse(); headers.reverse()
+        for i, b in enumerate(blocks):
+            b.tag = 'b%d' % i
+        probes, world = build_world_and_probes(rng, blocks, headers, unsized=True, nprobes=8, impl_rate=0.9, prefer_rate=0.6)
+        c = Case(kind, 'K', '', blocks, probes, world)
+        c.by_value = True
+        return c
     elif kind == 'arity':
         # one key common to the blocks, and a dispatch trait used at two arities on the side:
         # T: D<G=a> + Dp<G=x>   |   T: D<G=b> + Dp<u8, G=y>
